@@ -7,6 +7,8 @@ import StorageModel.C03.Model
                        owner (nullable fk index → B.things), dep (nullable fk constraint → B,
                        cascade delete), boss (nullable fk constraint → A itself, cascade delete:
                        deleting an entity deletes its transitive referrers, cycles included),
+                       chief (nullable fk constraint → A itself, RESTRICT: an entity some `chief` names —
+                       its own included — cannot be deleted),
                        groups (link collection ↔ B.members), rcB (ref-counted link collection ↔ B.rcA)
     store A1:          plain child of A (`ext1`), code (unique, non-nullable),
                        pals (link collection owned by the CHILD store ↔ B.palsOf)
@@ -240,6 +242,8 @@ structure EntA where
   dep : Option Bytes
   /-- self reference (fk constraint → A, cascade delete) -/
   boss : Option Bytes
+  /-- self reference (fk constraint → A, RESTRICT: `CascadeNone`) -/
+  chief : Option Bytes
   /-- `ext1/code` (`none`: the entity has no child-store data) -/
   code : Option Bytes
   /-- `ext2/colour` (`none`: no data of the extended child store) -/
@@ -292,6 +296,7 @@ structure ValsA where
   dep : Option Bytes
   groups : List Id
   boss : Option Bytes
+  chief : Option Bytes
   deriving Repr
 
 structure ChkA where
@@ -302,6 +307,7 @@ structure ChkA where
   dep : Bool
   groups : Bool
   boss : Bool
+  chief : Bool
   deriving Repr
 
 inductive Op
@@ -343,7 +349,8 @@ def persistFields (old : EntA) (v : ValsA) (chk : Option ChkA) : EntA :=
     roles := if proceed chk (·.roles) then setOf v.roles else old.roles
     owner := if proceed chk (·.owner) then v.owner else old.owner
     dep := if proceed chk (·.dep) then v.dep else old.dep
-    boss := if proceed chk (·.boss) then v.boss else old.boss }
+    boss := if proceed chk (·.boss) then v.boss else old.boss
+    chief := if proceed chk (·.chief) then v.chief else old.chief }
 
 /-! ### fkIndex A.owner → B.things -/
 
@@ -383,8 +390,13 @@ def bossAfter (isCreate : Bool) (old new : Bytes) (s : State) : Except Err Unit 
   else if new ≠ [] then (if s.aEx new then .ok () else .error .notFound)
   else .ok ()
 
-/-! ### IndexingContext for A (constraints in registration order: boss (fk constraint, then its
-    cascade), name, alias, roles, owner, dep) -/
+/-- the restrict check of `chief` (`fkDeleteCascadeConstraint.ProcessBeforeDelete` with `CascadeNone`):
+    any entity whose `chief` is the id — the entity itself included — refuses the delete -/
+def chiefCheck (s : State) (id : Id) : Except Err Unit :=
+  if s.a.entries.any (fun p => decide (p.2.chief.getD [] = id)) then .error .refExists else .ok ()
+
+/-! ### IndexingContext for A (constraints in registration order: chief (fk constraint, then its
+    restrict check), boss (fk constraint, then its cascade), name, alias, roles, owner, dep) -/
 
 structure Captured where
   name : Bytes
@@ -393,8 +405,9 @@ structure Captured where
   owner : Bytes
   dep : Bytes
   boss : Bytes
+  chief : Bytes
 
-def Captured.none : Captured := ⟨[], [], [], [], [], []⟩
+def Captured.none : Captured := ⟨[], [], [], [], [], [], []⟩
 
 def evName : Option EntA → Bytes
   | some e => e.name
@@ -414,6 +427,9 @@ def evDep : Option EntA → Bytes
 def evBoss : Option EntA → Bytes
   | some e => e.boss.getD []
   | none => []
+def evChief : Option EntA → Bytes
+  | some e => e.chief.getD []
+  | none => []
 def evCode : Option EntA → Bytes
   | some e => e.code.getD []
   | none => []
@@ -423,10 +439,11 @@ def evColour : Option EntA → Bytes
 
 def captureA (s : State) (id : Id) : Captured :=
   let e := s.a.lookup id
-  ⟨evName e, evAlias e, evRoles e, evOwner e, evDep e, evBoss e⟩
+  ⟨evName e, evAlias e, evRoles e, evOwner e, evDep e, evBoss e, evChief e⟩
 
 def afterUpdateA (isCreate : Bool) (cap : Captured) (s : State) (id : Id) : Except Err State := do
   let e := s.a.lookup id
+  let _ ← bossAfter isCreate cap.chief (evChief e) s   -- the same fk-constraint code for `chief`
   let _ ← bossAfter isCreate cap.boss (evBoss e) s
   let un ← uniqueAfter isCreate false cap.name (evName e) id s.uName
   let ua ← uniqueAfter isCreate true cap.alias (evAlias e) id s.uAlias
@@ -457,7 +474,7 @@ def createA (s : State) (id : Id) (v : ValsA) : Except Err State :=
   if id = [] then .error .other
   else if (s.a.lookup id).isSome then .error .exists
   else do
-    let e : EntA := ⟨v.name, v.alias, setOf v.roles, v.owner, v.dep, v.boss, none, none⟩
+    let e : EntA := ⟨v.name, v.alias, setOf v.roles, v.owner, v.dep, v.boss, v.chief, none, none⟩
     let s1 := { s with hasA := true, a := s.a.insert id e }
     let s2 ← setGroups s1 id v.groups                      -- an error stops the create
     afterUpdateA true Captured.none s2 id
@@ -482,7 +499,7 @@ def createA1 (s : State) (id : Id) (v : ValsA) (code : Bytes) (pals : List Id) :
   else do
     let cap := if (s.a.lookup id).isSome then captureA s id else Captured.none
     -- data of the other child store stays in the entity bucket
-    let e : EntA := ⟨v.name, v.alias, setOf v.roles, v.owner, v.dep, v.boss, some code, (s.a.lookup id).bind (·.colour)⟩
+    let e : EntA := ⟨v.name, v.alias, setOf v.roles, v.owner, v.dep, v.boss, v.chief, some code, (s.a.lookup id).bind (·.colour)⟩
     let s1 := { s with hasA := true, a := s.a.insert id e }
     let s2 ← setGroups s1 id v.groups
     let s2' ← setPals s2 id pals
@@ -497,7 +514,7 @@ def createA2 (s : State) (id : Id) (v : ValsA) (colour : Bytes) : Except Err Sta
   else if s.xEx id then .error .exists
   else do
     let cap := if (s.a.lookup id).isSome then captureA s id else Captured.none
-    let e : EntA := ⟨v.name, v.alias, setOf v.roles, v.owner, v.dep, v.boss, (s.a.lookup id).bind (·.code), some colour⟩
+    let e : EntA := ⟨v.name, v.alias, setOf v.roles, v.owner, v.dep, v.boss, v.chief, (s.a.lookup id).bind (·.code), some colour⟩
     let s1 := { s with hasA := true, a := s.a.insert id e }
     let s2 ← setGroups s1 id v.groups
     let s3 ← afterUpdateA true cap s2 id                   -- parent context first
@@ -592,15 +609,18 @@ def deleteA : Nat → List Id → State → Id → Except Err State
         -- child store first: its indexing context runs the parent's constraints (the cascade of
         -- `boss` referrers is the first of them to act), then its own, then the child store's cleanupLinks
         let s1 ← if e.code.isSome then (do
+            let _ ← chiefCheck s id
             let t0 ← cascadeBoss (deleteA fuel) busy s id
             let t ← beforeDeleteA t0 id
             pure { t with uCode := uniqueBeforeDelete (evCode (some e)) t.uCode, p := t.p.cleanFwd t.bEx id })
           else pure s
         -- the extended child store: its `FindById` finds the parent entity, so this round always runs
+        let _ ← chiefCheck s1 id
         let tx0 ← cascadeBoss (deleteA fuel) busy s1 id
         let tx ← beforeDeleteA tx0 id
         let s1x := { tx with uColour := uniqueBeforeDelete (evColour (some e)) tx.uColour }
         -- then the parent's own processDeleteConstraints and cleanupLinks
+        let _ ← chiefCheck s1x id
         let s1' ← cascadeBoss (deleteA fuel) busy s1x id
         let s2 ← beforeDeleteA s1' id
         let s3 := { s2 with g := s2.g.cleanFwd s2.bEx id, rc := s2.rc.cleanFwd s2.bEx id,
@@ -719,6 +739,7 @@ def bOwners : Bytes := [111, 119, 110, 101, 114, 115]
 def bOwner : Bytes := [111, 119, 110, 101, 114]
 def bDep : Bytes := [100, 101, 112]
 def bBoss : Bytes := [98, 111, 115, 115]
+def bChief : Bytes := [99, 104, 105, 101, 102]
 def bGroups : Bytes := [103, 114, 111, 117, 112, 115]
 def bExt1 : Bytes := [101, 120, 116, 49]
 def bCode : Bytes := [99, 111, 100, 101]
@@ -753,7 +774,7 @@ def Names.alt : Names := ⟨[116, 105, 116, 108, 101], [110, 109], [110, 105, 99
 
 /-- every bucket / field name of the schema -/
 def reserved (nm : Names) : List Bytes :=
-  [bU, bIndexes, bThings, bOwners, nm.nameSym, nm.nameKey, nm.aliasSym, nm.aliasKey, bRoles, bOwner, bDep, bBoss, bGroups, bExt1, bCode, bExt2, bColour, bLabel, bMembers,
+  [bU, bIndexes, bThings, bOwners, nm.nameSym, nm.nameKey, nm.aliasSym, nm.aliasKey, bRoles, bOwner, bDep, bBoss, bChief, bGroups, bExt1, bCode, bExt2, bColour, bLabel, bMembers,
    bPals, bPalsOf, bRcB, bRcA, bPeers, bMentors, bMentees]
 
 def idxPathA (field : Bytes) : List Bytes := [bU, bIndexes, bThings, field]
@@ -787,7 +808,8 @@ def renderA (nm : Names) (s : State) (p : Id × EntA) : List Line :=
     .kv (pathA p.1) nm.aliasKey (optField p.2.alias),
     .kv (pathA p.1) bOwner (optField p.2.owner),
     .kv (pathA p.1) bDep (optField p.2.dep),
-    .kv (pathA p.1) bBoss (optField p.2.boss) ] ++
+    .kv (pathA p.1) bBoss (optField p.2.boss),
+    .kv (pathA p.1) bChief (optField p.2.chief) ] ++
   listBucket (pathA p.1 ++ [bRoles]) p.2.roles ++
   optBucket (listBucket (pathA p.1 ++ [bGroups])) (s.g.fwd.lookup p.1) ++
   optBucket (countBucket (pathA p.1 ++ [bRcB])) (s.rc.fwd.lookup p.1) ++
